@@ -60,5 +60,45 @@ def natives(I):
     def members(cls):
         return list(I.enum_members(cls))
 
-    table = dict(ite=ite, implies=implies, conj=conj, disj=disj, iff=iff, forall=forall, exists=exists, members=members)
+    def _named(name):
+        n = I.ghost_names.get(name, 0)
+        I.ghost_names[name] = n + 1
+        return name if n == 0 else f'{name}#{n}'
+
+    def havoc_bool(name):
+        nm = _named(name)
+        v = z3.Bool(nm)
+        I.input_vars[nm] = v
+        return v
+
+    def havoc_int(name):
+        nm = _named(name)
+        v = z3.Int(nm)
+        I.input_vars[nm] = v
+        return v
+
+    def havoc_enum(name, cls):
+        nm = _named(name)
+        v = z3.Int(nm)
+        I.input_vars[nm] = v
+        I.assume(z3.And(v >= 0, v < len(I.enum_members(cls))))
+        return SEnum(cls, v)
+
+    def havoc_str(name):
+        nm = _named(name)
+        v = z3.String(nm)
+        I.input_vars[nm] = v
+        return SStr([('sym', v)])
+
+    def ghost_set(key, value):
+        I.ghost[key] = value
+
+    def ghost_get(key, default=None):
+        return I.ghost.get(key, default)
+
+    def symbolic_run():
+        return True
+
+    table = dict(havoc_bool=havoc_bool, havoc_int=havoc_int, havoc_enum=havoc_enum, havoc_str=havoc_str,
+                 ghost_set=ghost_set, ghost_get=ghost_get, symbolic_run=symbolic_run, ite=ite, implies=implies, conj=conj, disj=disj, iff=iff, forall=forall, exists=exists, members=members)
     return {f'pyvc.ghost.{k}': NativeFn(v, k) for k, v in table.items()}
